@@ -14,6 +14,7 @@ from __future__ import annotations
 
 import datetime as dt
 import json
+import os
 from pathlib import Path
 
 from mc.core import framework as F
@@ -524,6 +525,89 @@ def _writeback_case(ctx, kind_prefix: str) -> F.Outcome:
     return out
 
 
+def _readfault_child(zdir_s, dates_iso, err_no):
+    """One allocation during which reading next_ids.json fails with OSError(err_no), between normal ones."""
+    import pathlib
+
+    from zorg.storage.sql._zid_manager import ZIDManager
+
+    zdir = Path(zdir_s)
+    d1, d2 = [dt.date.fromisoformat(x) for x in dates_iso]
+    target = str(zdir / ".zorg" / "next_ids.json")
+    res = []
+
+    def alloc(d):
+        try:
+            return ZIDManager(zdir).get_next(d)
+        except Exception as e:  # noqa: BLE001
+            return f"EXC {type(e).__name__}"
+
+    res.append(alloc(d1))
+    orig_read_text, orig_open, orig_read_bytes = pathlib.Path.read_text, pathlib.Path.open, pathlib.Path.read_bytes
+
+    def deny(self, *a, **k):
+        raise OSError(err_no, os.strerror(err_no), str(self))
+
+    def read_text(self, *a, **k):
+        return deny(self) if str(self) == target else orig_read_text(self, *a, **k)
+
+    def read_bytes(self, *a, **k):
+        return deny(self) if str(self) == target else orig_read_bytes(self, *a, **k)
+
+    def open_(self, mode="r", *a, **k):
+        if str(self) == target and not any(c in mode for c in "wax+"):
+            return deny(self)
+        return orig_open(self, mode, *a, **k)
+
+    pathlib.Path.read_text, pathlib.Path.open, pathlib.Path.read_bytes = read_text, open_, read_bytes
+    try:
+        res.append(alloc(d1))
+    finally:
+        pathlib.Path.read_text, pathlib.Path.open, pathlib.Path.read_bytes = orig_read_text, orig_open, orig_read_bytes
+    res.append(alloc(d1))
+    res.append(alloc(d2))
+    return res, json.loads((zdir / ".zorg" / "next_ids.json").read_text())
+
+
+def _readfault_case(ctx, err_name) -> F.Outcome:
+    """(e) The environment answers ONE read of next_ids.json with an error (the file belongs to another
+    account, the network mount hiccups): that allocation may fail, but no ZID may ever be handed out twice
+    and no date's counter may be forgotten."""
+    import errno
+
+    dates = H.rotate(_DATE_POOLS, ctx.seed)[0]
+    d1, d2 = dates[0], dates[1]
+    out = F.Outcome(n_evals=4)
+    zdir = H.new_dir("zf")
+    try:
+        (zdir / ".zorg").mkdir()
+        (zdir / ".zorg" / "next_ids.json").write_text(json.dumps({_short(d1): "05", _short(d2): "0A"}))
+        r = H.run_child(_readfault_child, str(zdir), [d1.isoformat(), d2.isoformat()], getattr(errno, err_name), capture=False)
+        if r.status != "ok":
+            raise H.HarnessError(f"read-fault child failed: {r.status} {r.exc}")
+        got, final_map = r.value
+        zids = [z for z in got if not z.startswith("EXC ")]
+        problem = None
+        if got[0] != f"{_short(d1)}#05":
+            problem = ("first-allocation-wrong", {})
+        elif len(set(zids)) != len(zids):
+            problem = ("zid-handed-out-twice-after-a-read-error", {})
+        elif not got[3].startswith(f"{_short(d2)}#0A"):
+            problem = ("another-dates-counter-forgotten-after-a-read-error", {})
+        elif _short(d2) not in final_map or _short(d1) not in final_map:
+            problem = ("counter-file-lost-a-date-after-a-read-error", {})
+        out.n_nontrivial = 4
+        out.obs = H.digest([got, final_map])
+        if problem:
+            out.ok = False
+            out.sig = "read-fault:" + problem[0]
+            out.detail = {"next_ids_before": {_short(d1): "05", _short(d2): "0A"}, "injected": f"OSError({err_name}) on the read of next_ids.json during the 2nd allocation",
+                          "allocations": got, "next_ids_after": final_map}
+    finally:
+        H.rm(zdir)
+    return out
+
+
 _CMD_EVENTS = ("n", "C", "R", "X")
 
 
@@ -596,7 +680,7 @@ def _params(ctx):
 def _cases(ctx):
     dates = H.rotate(_DATE_POOLS, ctx.seed)[0]
     p = _params(ctx)
-    cases = [["chain"], ["alloc_chain"], ["centuries", 3]]
+    cases = [["chain"], ["alloc_chain"], ["centuries", 3]] + [["readfault", e] for e in ("EACCES", "EIO", "ESTALE", "EPERM")]
     for kp in ("-", "o", "o P3", "x", "x P0", "~", "<", "< P9", ">", "- 2024-02-03", "o P2 2024-02-03"):
         cases.append(["writeback", kp])
     import itertools as _it
@@ -640,6 +724,8 @@ def _run_case(ctx, case) -> F.Outcome:
         return _writeback_case(ctx, case[1])
     if kind == "commands":
         return _commands_case(ctx, case[1])
+    if kind == "readfault":
+        return _readfault_case(ctx, case[1])
     raise H.HarnessError(f"bad case {case!r}")
 
 
@@ -673,7 +759,7 @@ def run(ctx: F.Ctx):
             "set of returned ZIDs, manager age); (c) round-robin allocation over n = 1..12 (thorough: "
             "24) distinct dates, three rounds, a fresh manager per allocation; (d) every history of length <= 3 (thorough: 4) over "
             "{append a ZID-less note dated today, db create, db reindex, delete the database file} that adds a note and ends with a command, "
-            "on a real indexed directory: no ZID written on two notes, every ZID well formed, whatever the commands report. Every evaluation is distinct by construction."
+            "on a real indexed directory: no ZID written on two notes, every ZID well formed, whatever the commands report; (e) one allocation during which the read of next_ids.json is answered with EACCES / EIO / ESTALE / EPERM: it may fail, but no ZID is handed out twice and no date's counter is forgotten. Every evaluation is distinct by construction."
         ),
         "bounds": {**p, "suffixes_checked": nsuf, "initial_contents": 9, "events": _EVENTS,
                    "dates": [d.isoformat() for d in H.rotate(_DATE_POOLS, ctx.seed)[0]]},
